@@ -272,4 +272,5 @@ def replay(case):
         k = {a: (float(b) if isinstance(b, str) else b) for a, b in case["kwargs"].items()}
         return check(torch, k)
     bad, _ = check_configs(torch)
-    return [m for c, m in bad if c == case]
+    key = json.dumps(case, sort_keys=True, default=str)  # NaN-safe comparison
+    return [m for c, m in bad if json.dumps(c, sort_keys=True, default=str) == key]
